@@ -66,6 +66,22 @@ CHECKS.update({
         note="Schedules are steered by sleeps, not controlled; the oracle does not depend on the schedule. Grouping of worker events into runs uses the append order of the trace file (the parent writes parallel_begin before forking and parallel_end after joining). A user-supplied surface flux is documented not to reach workers.", design="4/C14"),
 })
 
+
+CHECKS.update({
+    "C18": dict(technique="TLC exhaustive model checking of spec/NetcdfIO.tla (token placement through Save / Sel for every result-set shape) + save/load of every enumerated shape with injectively instantiated token arrays on the real functions, bit-for-bit comparison",
+        text="NetcdfIO.tla models save_footprints_to_netcdf as the code's loops (data[t][ti] := results[name_ti][t], tower coordinate from the result keys, metadata from the configuration's tower list, time and met values from the first tower) and selection by label. TLC checks SelReturnsOwn, NothingLeftEmpty, MetaOwn, MetPerStep for towers 1..4 x steps 1..4 x 2-D / 1..3 levels x index/label timestamps x ustar/z0 forcing; two negative controls (transposed placement, reversed metadata) must be violated (thorough). Every shape is saved and loaded by the real functions with a distinct array per (tower, step, level, field) containing negatives, denormals, +-0, 1e300 and float32-exact values; fields selected by name and label and by position, coordinates, timestamps, per-tower metadata and per-step met values (absent ustar = NaN) are compared bit-for-bit / exactly; solver-produced result sets go through the same comparison.",
+        note="Result sets are driver-shaped (keys in configuration order), the documented contract of the function.", design="4/C18"),
+    "C20": dict(technique="TLC exhaustive model checking of the definitions in spec/SourceArea.tla (allowed result sets, contour definition, their stated consequences) + exact replay of every enumerated (f, g) on get_source_area / extract_percentile_contour + TLC judgement of observations recorded from the real functions with the five built-in base functions",
+        text="SourceArea.tla defines the rescaled value of a cell as a SET (sum of f over cells with larger g plus any subset-sum of the tied cells) and the percentile contour as the fewest highest-valued cells reaching p of the total. TLC checks for every f in 0..2 (0..3) and g in 0..2 on 5 (6) cells that the definitions imply the range, antitonicity, invariance under increasing maps of g and under common permutations, monotonicity of area/level in p and the scaling law. Each enumerated pair is run through the real functions in several array shapes and coordinate forms: every cell's value must be a member of its allowed set, level and area must equal the definition's (exact arithmetic: small integers, dyadic p). In the other direction, 400 (4000) observations on random/sparse/tie-heavy integer fields up to 5x6 with contribution/circular/upwind/crosswind/sector/random base functions and 2-D/3-D inputs are judged by TLC against the definitions.",
+        note="All data are small integers stored as floats and p is dyadic, so comparisons are exact; the open upper end of the range [0, total) holds for cells with f > 0 (a zero cell ranked last gets exactly total), which is what the definition implies and what is checked.", design="4/C20"),
+    "C05": dict(technique="TLC evaluation of the cubic Taylor polynomial of the layer propagator by exact rational matrix arithmetic (spec/StepAlgebra.tla, 144 probe points, CodeIsTaylor3) + probe of the real ivp_solver for one layer at the same points against the specification's rational coefficients within the rational remainder bound",
+        text="Claimed core of C05: the order to which the exponential-integrator step expands the exact layer propagator. The reference I + M + M^2/2 + M^3/6 is computed by matrix multiplication in exact complex rationals and compared with the code's four formulas as modelled (negative control: the pinned sign of the cubic term of b must be violated); the real ivp_solver is called for one layer from (1,0) and (0,1) with dyadic inputs and each of its coefficients a, b, c, d must lie within R4 = sum_{n>=4} |M|^n/n! (+8 ulp) of the rational value. A higher-order scheme passes; a sign or coefficient slip up to dz^3 exceeds the tolerance by a factor >= 10 at 56 of the 144 points. The mean-mode profile and the shared plumbing of the analytic branch are covered by the Solver model (C03, C10, C11 scenarios with analytic = TRUE).",
+        note="NOT decided here: the transcendental closed form exp(-beta h), Kz^-1/beta of the analytic branch and the measured eightfold error reduction (the latter follows from the local order by the standard one-step convergence theorem, assumed). ivp_solver is a module-level function, not exported API; if it disappears the check reports a machinery failure, not a violation.", design="4/C05"),
+    "C08": dict(technique="TLC model checking of the convention chain in spec/Orientation.tla (15-degree sector abstraction, 24 directions, two negative controls) + TLC judgement of five-stage observations recorded from parse_config_dict / compute_wind_fields / vertical_profiles / run_bldfm_single",
+        text="Orientation.tla states the chain wind_dir -> (u, v) -> profiles -> solver orientation -> grid axes -> lat/lon placement on compass sectors and checks UpwindOfTower and the cardinal mapping (0/90/180/270 blow toward S/W/N/E) for all 24 directions; exchanging sin and cos or treating the direction as blown-to violates it. For every direction x closure MOST/MOSTM/CONSTANT x stable/unstable x square/oblong grid (tower quadrant and speed seeded) the real interface is run and the sector of the decomposed wind, of the profile wind at the measurement height and at the top node, of the tower-to-centroid bearing, the signs of the tower's local coordinates and the monotonicity of the returned X/Y are recorded; TLC judges each observation stage by stage. Speed preservation is compared by the harness at 1e-12.",
+        note="A bearing within 7.5 degrees of the wind direction is accepted as 'a few degrees' (largest observed error 4.8 degrees); directions between the multiples of 15 degrees are not sampled; the roughness-height node is not observed (the unstable log-law speed there is of rounding size and the property says nothing about it).", design="4/C08"),
+})
+
 NOT_APPLICABLE = {
     "C01": "asymptotic numerical accuracy against an ODE boundary-value solution: no discrete state/transition content for a TLA+ model; needs a numerical differential oracle (different technique)",
     "C09": "real-valued identities of transcendental similarity formulas and floating-point arange rounding; nothing for TLC (integers only) to enumerate",
